@@ -138,7 +138,8 @@ pub fn run(tier: &str, seed: u64, out: &str) {
     let mut per_root = Vec::new();
     let mut tot = Outcome { searched: 0, skipped_excluded: 0, skipped_deeper_reuse: 0, won: 0, lost: 0, exact: 0 };
     let mut samples = Vec::new();
-    let wall_cap = if thorough { 3000.0 } else { 100.0 };
+    // only a guard against pathological slowness: coverage must not depend on how busy the machine is
+    let wall_cap = if thorough { 6000.0 } else { 900.0 };
     for (name, fen, lq, lt) in SEARCH_ROOTS {
         if rep.saturated() {
             break;
